@@ -9,6 +9,7 @@ import (
 	"fmt"
 	"math/rand"
 	"os"
+	"os/exec"
 	"path/filepath"
 	"regexp"
 	"runtime"
@@ -474,4 +475,124 @@ func checkMain(args []string) int {
 		fn(c)
 	}()
 	return c.Finish()
+}
+
+// ---- shielded sections ---------------------------------------------------------------
+// Code under test that runs inside the checker's own process (the signer of C20) can take the checker down with it
+// (a panic in a goroutine it started). A shielded section runs in a child process of the same binary; its
+// observations are merged into the parent's, and a child that dies is itself an observation about the code it ran.
+
+type shieldDump struct {
+	Violations   []violation
+	KnownSeen    map[string]int
+	Inconclusive []string
+	Notes        map[string]int
+	Evals        int64
+	Distinct     []string
+	Samples      []interface{}
+	Counters     map[string]int64
+	Sets         map[string][]string
+}
+
+// Shielded runs fn in a child process (parent side) or directly (child side). It returns true in the child after fn
+// has run and the state was written: the caller must then return without doing anything else.
+func (c *Ctx) Shielded(name string, fn func()) (isChild bool) {
+	if want := os.Getenv("RV_SHIELD"); want != "" {
+		if want != name {
+			return false
+		}
+		fn()
+		c.mtx.Lock()
+		d := shieldDump{Violations: c.violations, KnownSeen: c.knownSeen, Inconclusive: c.inconclusive, Notes: c.notes, Evals: c.evals,
+			Samples: c.samples, Counters: c.counters, Sets: map[string][]string{}}
+		for k := range c.distinct {
+			d.Distinct = append(d.Distinct, k)
+		}
+		for k, s := range c.sets {
+			for m := range s {
+				d.Sets[k] = append(d.Sets[k], m)
+			}
+		}
+		c.mtx.Unlock()
+		bz, _ := json.Marshal(d)
+		_ = os.WriteFile(os.Getenv("RV_SHIELD_OUT"), bz, 0o644)
+		os.Exit(0)
+	}
+	if c.Only >= 0 {
+		fn() // replay of a single case: no shield
+		return false
+	}
+	out := filepath.Join(c.Scratch, "shield-"+name+".json")
+	errPath := filepath.Join(c.Scratch, "shield-"+name+".stderr")
+	_ = os.MkdirAll(c.Scratch, 0o755)
+	ef, _ := os.Create(errPath)
+	cmd := exec.Command(selfBin, "check", c.ID, "--tier", c.Tier)
+	cmd.Env = append(os.Environ(), "RV_SHIELD="+name, "RV_SHIELD_OUT="+out, fmt.Sprintf("VERIF_SEED=%d", c.Seed))
+	cmd.Stdout, cmd.Stderr = ef, ef
+	runErr := cmd.Run()
+	if ef != nil {
+		ef.Close()
+	}
+	bz, rerr := os.ReadFile(out)
+	if rerr != nil {
+		se, _ := os.ReadFile(errPath)
+		s := string(se)
+		for _, mark := range []string{"panic:", "fatal error:"} {
+			if i := strings.Index(s, mark); i >= 0 {
+				s = s[i:]
+				break
+			}
+		}
+		if len(s) > 4000 {
+			s = s[:4000]
+		}
+		c.Violation(-1, "checked-code-killed-its-process:"+sigLine(s), fmt.Sprintf("the section %q runs the code under test in-process; the process died (%v):\n%s", name, runErr, s), nil)
+		return false
+	}
+	var d shieldDump
+	if err := json.Unmarshal(bz, &d); err != nil {
+		c.Inconclusive("shielded section " + name + ": " + err.Error())
+		return false
+	}
+	c.mtx.Lock()
+	for _, v := range d.Violations {
+		dup := false
+		for _, w := range c.violations {
+			if w.Sig == v.Sig {
+				dup = true
+			}
+		}
+		if !dup {
+			c.violations = append(c.violations, v)
+		}
+	}
+	for k, n := range d.KnownSeen {
+		c.knownSeen[k] += n
+	}
+	c.inconclusive = append(c.inconclusive, d.Inconclusive...)
+	for k, n := range d.Notes {
+		c.notes[k] += n
+	}
+	c.evals += d.Evals
+	for _, k := range d.Distinct {
+		c.distinct[k] = struct{}{}
+	}
+	for _, s := range d.Samples {
+		if len(c.samples) < 6 {
+			c.samples = append(c.samples, s)
+		}
+	}
+	for k, n := range d.Counters {
+		c.counters[k] += n
+	}
+	for k, ms := range d.Sets {
+		if c.sets[k] == nil {
+			c.sets[k] = map[string]struct{}{}
+		}
+		for _, m := range ms {
+			c.sets[k][m] = struct{}{}
+		}
+	}
+	c.mtx.Unlock()
+	return false
 }
